@@ -6,7 +6,7 @@
    None -> VNone, int -> VInt, bool -> VBool, float -> VFloat, str -> VStr, date -> VTup [y;m;d]. *)
 From Coq Require Import ZArith NArith List Bool String.
 From Coq Require Import PrimFloat Uint63 FloatOps SpecFloat.
-Require Import PV.Base.Val PV.Gen.Casts.
+Require Import PV.Base.Val PV.Base.Num PV.Gen.Casts.
 Import ListNotations.
 Open Scope Z_scope.
 
@@ -201,6 +201,20 @@ Definition cast_date (from : ty) (v : val) : val :=
          end
   end.
 
+(* ---------- float / double: cast_to_float -> cast_value.  int and bool go through float(value)
+   (exact conversion for |z| < 2^53, correctly rounded below 2^62; larger ints are outside the model),
+   a date gives null; float(str) is not modelled. *)
+Definition cast_fractional (from : ty) (v : val) : val :=
+  match v with
+  | VNone => VNone
+  | VStr [] => VNone
+  | VInt z => if (Z.abs z <? 2 ^ 62) then VFloat (float_of_Z z) else VBad
+  | VBool b => VFloat (if b then PrimFloat.one else PrimFloat.zero)
+  | VFloat f => VFloat f
+  | VTup _ => VNone
+  | _ => VBad
+  end.
+
 (* ---------- dispatch: get_caster(from, to)(value) *)
 Definition cast (from to : ty) (v : val) : val :=
   if ty_eqb from to then v
@@ -211,5 +225,5 @@ Definition cast (from to : ty) (v : val) : val :=
        | TDate => cast_date from v
        | TByte | TShort | TInt | TLong =>
            match bounds to with Some (lo, hi) => cast_bounded lo hi from v | None => VBad end
-       | TFloat | TDouble => VBad  (* not modelled *)
+       | TFloat | TDouble => cast_fractional from v
        end.
